@@ -2,10 +2,10 @@ package govc
 
 import (
 	"fmt"
-	"math/big"
 	"go/token"
 	"go/types"
 	"math"
+	"math/big"
 	"strings"
 
 	"golang.org/x/tools/go/ssa"
@@ -376,6 +376,16 @@ func (u *Unit) evalBinary(env *SpecEnv, x *EBinary) Value {
 	if a.T != nil && b.T != nil && isBVSort(a.T.Sort) && isBVSort(b.T.Sort) && x.Op != "==" && x.Op != "!=" {
 		return u.specBV(env, x.Op, a, b)
 	}
+	if (x.Op == "==" || x.Op == "!=") && a.T != nil && b.T != nil {
+		// an interface compared with a concrete value: the value is converted to the interface
+		_, ai := a.Ty.Underlying().(*types.Interface)
+		_, bi := b.Ty.Underlying().(*types.Interface)
+		if ai && !bi && !isUntypedNil(b.Ty) {
+			b = Value{T: u.makeIface(env.s, b, b.Ty), Ty: a.Ty}
+		} else if bi && !ai && !isUntypedNil(a.Ty) {
+			a = Value{T: u.makeIface(env.s, a, a.Ty), Ty: b.Ty}
+		}
+	}
 	switch x.Op {
 	case "==", "!=":
 		var eq *Term
@@ -447,7 +457,7 @@ func (u *Unit) evalBinary(env *SpecEnv, x *EBinary) Value {
 }
 
 func isFloatSort(s string) bool { return s == "Float" }
-func isIntLit(e Expr) bool { _, ok := e.(*EInt); return ok }
+func isIntLit(e Expr) bool      { _, ok := e.(*EInt); return ok }
 func litFloat(e Expr) float64 {
 	f, _ := new(big_Float).SetInt(e.(*EInt).Val).Float64()
 	return f
@@ -539,6 +549,14 @@ func (u *Unit) qualifiedObject(env *SpecEnv, pkgName, name string) (Value, bool)
 		if p.Pkg.Name() == pkgName && u.V.inRepoPkg(p.Pkg.Path()) {
 			if v, ok := u.objectIn(env, p, name); ok {
 				return v, true
+			}
+		}
+	}
+	// package-level variables of other packages (e.g. binary.LittleEndian)
+	for _, p := range u.V.Prog.AllPackages() {
+		if p.Pkg.Name() == pkgName && !u.V.inRepoPkg(p.Pkg.Path()) {
+			if g, ok := p.Members[name].(*ssa.Global); ok {
+				return Value{T: u.globalVal(env.s, g), Ty: g.Type().(*types.Pointer).Elem()}, true
 			}
 		}
 	}
@@ -701,6 +719,13 @@ func (u *Unit) evalSpecCall(env *SpecEnv, c *ECall) Value {
 		cnd := u.evalBool(env, c.Args[0])
 		a, b := arg(1), arg(2)
 		return Value{T: Ite(cnd, a.T, b.T), Ty: a.Ty}
+	case "bits":
+		// bit pattern of a float64 as an integer (only in `floats bits` mode, where it is the value itself)
+		a := arg(0)
+		if u.W.FM != FloatBits {
+			u.specErr("bits() needs `floats bits`")
+		}
+		return Value{T: Leaf(a.T.String(), "Int"), Ty: types.Typ[types.Uint64]}
 	case "isnan":
 		a := arg(0)
 		return Value{T: u.fIsNaN(a.T), Ty: boolType}
